@@ -62,6 +62,8 @@ type scriptDriver struct {
 	sendDur   time.Duration // how long the failing SendProbe stays in flight before it returns its error
 }
 
+var errSendBudget = fmt.Errorf("harness: more than 2000 probes in one run")
+
 func newScriptDriver(parallel bool, script []scriptEntry) *scriptDriver {
 	return &scriptDriver{parallel: parallel, sendTimes: map[int]time.Time{}, pend: append([]scriptEntry(nil), script...), notify: make(chan struct{}, 1)}
 }
@@ -79,6 +81,11 @@ func ipIdx(a netip.Addr) int {
 func (d *scriptDriver) SendProbe(ttl uint8) error {
 	d.mu.Lock()
 	d.nSend++
+	if d.nSend > 2000 {
+		// a run can ask for at most 255 probes; anything far beyond that is a runaway sender
+		d.mu.Unlock()
+		return errSendBudget
+	}
 	if d.failSend != 0 && d.nSend == d.failSend {
 		d.mu.Unlock()
 		time.Sleep(d.sendDur)
